@@ -82,6 +82,11 @@ impl<E: FieldElement, H: ElementHasher<BaseField = E::BaseField>> VerifierChanne
             .map_err(|err| VerifierError::ProofDeserializationError(err.to_string()))?;
 
         // --- parse trace and constraint queries -------------------------------------------------
+        if num_unique_queries == 0 || trace_queries.len() != num_trace_segments {
+            return Err(VerifierError::ProofDeserializationError(
+                "inconsistent number of queries or query sets".to_string(),
+            ));
+        }
         let trace_queries = TraceQueries::new(trace_queries, air, num_unique_queries as usize)?;
         let constraint_queries =
             ConstraintQueries::new(constraint_queries, air, num_unique_queries as usize)?;
